@@ -9,6 +9,7 @@ if __name__ == "__main__":
     ksave = int(os.environ.get("BOBV_KILL_SAVE", "0"))
     kprune = int(os.environ.get("BOBV_KILL_PRUNE", "0"))
     kinval = int(os.environ.get("BOBV_KILL_INVALIDATE", "0"))
+    ktear = int(os.environ.get("BOBV_TEAR_SAVE", "0"))
     cnt = {"save": 0, "prune": 0, "inval": 0}
     if True:
         orig_reset = bob.state._BobState.resetWorkspaceState
@@ -25,6 +26,21 @@ if __name__ == "__main__":
         orig_save = bob.state._BobState._BobState__save
 
         def save(self, *a, **kw):
+            if ktear and cnt["save"] + 1 == ktear and self._BobState__asynchronous == 0:
+                # die in the middle of this write: half of the pickled state reaches the file
+                import pickle as _p, types
+
+                def torn_dump(obj, f, *pa, **pk):
+                    data = _p.dumps(obj, *pa, **pk)
+                    f.write(data[:max(1, len(data) // 2)])
+                    try:
+                        f.flush()
+                    except Exception:
+                        pass
+                    os._exit(9)
+                shim = types.SimpleNamespace(**{k: getattr(_p, k) for k in dir(_p) if not k.startswith("__")})
+                shim.dump = torn_dump
+                bob.state.pickle = shim
             r = orig_save(self, *a, **kw)
             cnt["save"] += 1
             if ksave and cnt["save"] == ksave:
